@@ -96,6 +96,17 @@ CHECKS = {
              "a 10-line reference unbolding of the cleanups-off tree and only heading lines may differ.",
         note="Trusted: Reader A (Marko) for tightness and structure; the reference unbold in checks/c10.py.",
         ref="DESIGN.md §2 C10"),
+    "C11": dict(
+        level="model_checking",
+        technique="explicit-state reference model of the sentence wrapper, exhaustive trace enumeration replayed against the implementation, plus an exhaustive single-edit relation between traces",
+        text="A reference sentence wrapper (greedy loop; line closed after a sentence end once it is >= 20 long) is run on every paragraph of "
+             "up to 3 (quick) / 4 (thorough) sentences from a 15-shape pool chosen around the two thresholds, at 3-4 widths and 3 indent pairs, "
+             "and every trace is replayed against line_wrap_by_sentence (first differing line classified). For every single-sentence replacement "
+             "of every paragraph the lines before the previous sentence's last line and after the first later sentence that closes a line of >= 20 "
+             "must be byte-identical. The sentence-end detector is compared with a regex-free reference on every word of <= 5/6 symbols over a "
+             "12-symbol alphabet; documents with hard breaks, tags and code spans are checked through reformat_text in list/quote contexts.",
+        note="Trusted: the reference wrapper and detector in checks/c11.py (both < 30 lines).",
+        ref="DESIGN.md §2 C11"),
     "C05": dict(
         level="model_checking",
         technique="explicit-state model of the greedy filler, exhaustive trace enumeration + replay of every trace against the implementation",
